@@ -231,3 +231,21 @@ func (c *Control) VerifRelayWrap(target, claimedPeer netip.Addr, inner []byte) b
 	c.f.SendVia(hi, relay, inner, make([]byte, 12), make([]byte, mtu)[:0], false, 0)
 	return true
 }
+
+// VerifControlResp builds a CreateRelayResponse control message.
+func VerifControlResp(from, to netip.Addr, initIdx, respIdx uint32) []byte {
+	resp := NebulaControl{Type: NebulaControl_CreateRelayResponse, InitiatorRelayIndex: initIdx, ResponderRelayIndex: respIdx,
+		RelayFromAddr: netAddrToProtoAddr(from), RelayToAddr: netAddrToProtoAddr(to)}
+	b, _ := resp.Marshal()
+	return b
+}
+
+// VerifSendOnTunnel sends one encrypted message on the primary tunnel with `to`, if there is one (never starts a handshake).
+func (c *Control) VerifSendOnTunnel(t header.MessageType, st header.MessageSubType, to netip.Addr, payload []byte) bool {
+	hi := c.f.hostMap.QueryVpnAddr(to)
+	if hi == nil || hi.ConnectionState == nil {
+		return false
+	}
+	c.f.SendMessageToHostInfo(t, st, hi, payload, make([]byte, 12, 12), make([]byte, mtu))
+	return true
+}
